@@ -14,6 +14,12 @@ def run(ctx):
     runs = [("seq", 400 if quick else 6000, 40, 0, []),
             ("seq", 60 if quick else 600, 300, 1, [])]
     r = codec.run_art("C01", ctx, runs)
+    # the 15 codes through dsi-bitstream's dynamic dispatch (table fast paths included):
+    # written bits, reported lengths, length function and read-back against the proved codes
+    rc = codec.run_simple("C01", ctx, "codes", ["--count", "1024" if quick else "20000"],
+                          oracle_aspects={"back", "dec", "pad"}, corr_aspects={"bits", "len", "written"},
+                          name="codes")
+    r = codec.merge([r, rc])
     def search():
         # other seeds, three times as many cases
         ctx2 = dict(ctx); ctx2["seed"] = ctx["seed"] + 7919
